@@ -48,10 +48,25 @@ Fixpoint branches_f (p : param float) (v : float) (us : list float) : list nat :
 (* ---- agent level ---- *)
 (* observation of one agent: hyperparameter attributes, label, and per registered optimizer
    (wrapper lr, lr of every param group) *)
-Definition agent_obs := (list (name * float) * option name * list (float * list float))%type.
+(* ... and, per attribute, whether its Python type is int *)
+Definition agent_obs := (list (name * float) * option name * list (float * list float) * list (name * bool))%type.
+
+(* the attribute named by the label was produced by cast: it is a Python int exactly when the configured dtype is int *)
+Definition check_label_type (a : agent float) (tys : list (name * bool)) : bool :=
+  match a_mut a with
+  | None => true
+  | Some n =>
+      match find (fun h : hpent float => Nat.eqb (hp_name h) n) (a_hps a),
+            find (fun t : name * bool => Nat.eqb (fst t) n) tys with
+      | Some h, Some t => Bool.eqb (p_int (hp_par h)) (snd t)
+      | None, _ => true            (* label of an attribute that is not configured: not ours *)
+      | Some _, None => false
+      end
+  end.
 
 Definition check_agent (a : agent float) (ob : agent_obs) : bool :=
-  let '(vals, mut, opts) := ob in
+  let '(vals, mut, opts, tys) := ob in
+  check_label_type a tys &&
   forallb (fun nv => opt_eqb feqb (getv (a_vals a) (fst nv)) (Some (snd nv))) vals
   && Nat.eqb (length vals) (length (a_vals a))
   && opt_eqb Nat.eqb (a_mut a) mut
